@@ -322,7 +322,30 @@ pub fn run_type<T: Reg>(cx: &mut Cx, name: &str) {
 		Mode::C09 => {
 			let (nv, nm) = if t { (20, 10) } else { (4, 5) };
 			let inputs = inputs_for::<T>(cx, nv, nm);
-			for (inp, _fam, _) in inputs {
+			let mut all: Vec<Vec<u8>> = inputs.into_iter().map(|x| x.0).collect();
+			// hostile family: a maximal / near-maximal count in front of 0, 1, about one chunk and
+			// more than one chunk of plausible payload
+			cx.rng.bigbias = true;
+			for _ in 0..(if t { 6 } else { 2 }) {
+				let v = T::gen(&mut cx.rng, 0);
+				if let Some(enc) = encode_guarded(&v) {
+					if enc.len() > 300_000 {
+						continue;
+					}
+					let mut s = &enc[..];
+					if let Ok(_) = <parity_scale_codec::Compact<u32>>::decode(&mut s) {
+						let body = s.to_vec();
+						for c in [&[0x03u8, 0xff, 0xff, 0xff, 0xff][..], &[0xfe, 0xff, 0xff, 0xff], &[0x03, 0x00, 0x00, 0x00, 0x08], &[0x02, 0x00, 0x40, 0x00]] {
+							let mut h = c.to_vec();
+							h.extend_from_slice(&body);
+							all.push(h);
+						}
+					}
+					all.push(enc);
+				}
+			}
+			cx.rng.bigbias = false;
+			for inp in all {
 				if !safe_input::<T>(&inp) {
 					cx.stats.bump("skipped/zero-wire-hostile-count");
 					continue;
@@ -666,27 +689,40 @@ fn oracle_c12<T: Reg>(cx: &mut Cx, name: &str, desc: &str, inp: &[u8], fam: &str
 fn alloc_case<T: Reg>(cx: &mut Cx, name: &str, desc: &str, inp: &[u8], known: bool) {
 	let (r, allocs, _, _) = dec_rec::<T>(inp, known);
 	cx.stats.bump(&format!("alloc/{}", r.tag()));
-	let term = format!(
-		"(GAlloc {} {} {} [{}])",
-		desc,
-		b(known),
-		blist(inp),
-		allocs.iter().map(|x| x.to_string()).collect::<Vec<_>>().join("; ")
-	);
-	let rp = format!("{name}\talloc\t{}\t{}", known as u8, hex(inp));
-	// only successful decodes and decodes that fail have the same announced prefix in the
-	// model; the model's trace stops at the failure exactly as the implementation does
-	if cx.cases.push(term, rp.clone(), !allocs.is_empty()) && inp.len() < 40 {
-		cx.stats.sample(format!("{name}: known={known} {} announces {:?}", hex(inp), allocs));
+	let rp = format!("{name}\talloc\t{}\t{}", known as u8, hex(&inp[..inp.len().min(4096)]));
+	if inp.len() <= 20000 {
+		let term = format!(
+			"(GAlloc {} {} {} [{}])",
+			desc,
+			b(known),
+			blist(inp),
+			allocs.iter().map(|x| x.to_string()).collect::<Vec<_>>().join("; ")
+		);
+		if cx.cases.push(term, rp.clone(), !allocs.is_empty()) && inp.len() < 40 {
+			cx.stats.sample(format!("{name}: known={known} {} announces {:?}", hex(inp), allocs));
+		}
 	}
-	// oracle: what is announced is bounded by the input supplied
-	let total: u128 = allocs.iter().map(|x| *x as u128).sum();
-	let bound = 16384u128 * (inp.len() as u128 + 1) * 64 + 16384 * 64;
-	if T::min_wire() > 0 {
-		cx.oracle.check(total <= bound, "announced-allocation-unbounded", || format!("{rp}\ttotal={total}"));
+	drop(r);
+	// measured heap use of the real decode, over the three kinds of input
+	let bound = 2 * (T::mem_rate() as u128 * inp.len() as u128 + T::mem_allow() as u128) + 4096;
+	let class = if T::zero_wire_container() { "heap-use-exceeds-input-bound/zero-wire-element" } else { "heap-use-exceeds-input-bound" };
+	for kind in 0..3 {
+		let m = crate::alloc::Meter::start();
+		let res = match kind {
+			0 => dec_slice::<T>(inp).tag(),
+			1 => dec_rec::<T>(inp, false).0.tag(),
+			_ => catch_unwind(AssertUnwindSafe(|| parity_scale_codec::decode_from_bytes::<T>(bytes::Bytes::copy_from_slice(inp)).is_ok())).map_or("panic", |x| if x { "ok" } else { "err" }),
+		};
+		let u = m.stop();
+		// the measured peak includes the decoded value itself while it is alive
+		let kname = ["slice", "unknown-length", "shared-buffer"][kind];
+		let extra = if kind == 2 { inp.len() as u128 + 256 } else { 0 };
+		cx.stats.bump(&format!("measured/{kname}/{res}"));
+		cx.oracle.check((u.peak as u128) <= bound + extra, class, || {
+			format!("{rp}\tinput={kname}\tlen={}\tpeak_live={}\tmax_request={}\tbound={}", inp.len(), u.peak, u.max_request, bound + extra)
+		});
 	}
 }
-
 
 /// C18: DecodeLength::len on the six collections and tuples led by one
 pub fn len_cases(cx: &mut Cx) {
